@@ -106,5 +106,9 @@ MonRet(m, e) ==
 \* C06: an operation that can never complete although the device owes it nothing more (reported by the scheduler, never waited for)
 MonStuck(m, e) == IF \E l \in Mine(m, e.t) : m.st[l].k1 THEN Bad(m, "C06.Stuck.K1") ELSE Bad(m, "C06.Stuck")
 
+\* the transport has nothing for the reader e.t although the device is up: if a stream of the reader's own call still owes the
+\* device an OKAY for a WRITE it consumed, the device is waiting for that OKAY (stop-and-wait) - the host forgot to acknowledge
+MonStall(m, e) == IF \E l \in Mine(m, e.t) : m.st[l].devUn > 0 /\ ~m.st[l].hostClosed THEN Bad(m, "C04.MissingOkay") ELSE m
+
 MonExc(m, e) == IF e.cls = "UnicodeDecodeError" THEN Bad(m, "C01.NoDecodeError") ELSE m
 =============================================================================
